@@ -9,7 +9,7 @@ Versions these contracts were read against (Cargo.lock): http 1.1.0, httparse 1.
 url 2.5.3, log 0.4.22, std of the pinned nightly. `AXIOM_DOC` maps each axiom to its
 one-line contract; it is copied into evidence files as the trusted base.
 """
-from .interp import (TOP, UNIT, leaf_tree, tree_leaf, variant_at, iv_and, BIG, Outcome)
+from .interp import (mkproj, TOP, UNIT, leaf_tree, tree_leaf, variant_at, iv_and, BIG, Outcome)
 
 AXIOM_DOC = {}
 AXIOMS = {}
@@ -47,7 +47,7 @@ def subtree(tree, path):
             if q in tree:
                 l = tree[q]
                 if l[0] == "term":
-                    out[()] = ("term", ("proj", l[1], path[k:]))
+                    out[()] = ("term", mkproj(l[1], path[k:]))
                 else:
                     out[()] = TOP
                 break
@@ -506,6 +506,8 @@ def ax_ne(call):
             return call.interp.enter(call.st, call.fr, b, call.args, None, None, on_return=on_return)
     from .mir import short
     s = short(selfty)
+    if s.startswith("Option<"):
+        return ax_option_eq(call, negate=True)
     ty = {"StatusCode": "u16", "Version": "u8"}.get(s)
     return _eq_axiom(negate=True, ty=ty)(call)
 
@@ -533,8 +535,16 @@ def _deref_one(call, tree):
     return tree
 
 
+def _neg(l):
+    if l[0] == "int":
+        return ("int", 1 - l[1])
+    if l[0] == "term":
+        return ("term", l[1][1]) if l[1][0] == "not" else ("term", ("not", l[1]))
+    return l
+
+
 @axiom("<Option<T> as PartialEq>::eq", doc="structural equality of Option")
-def ax_option_eq(call):
+def ax_option_eq(call, negate=False):
     a = call.deref(call.args[0])
     b = call.deref(call.args[1])
     out = []
@@ -548,12 +558,14 @@ def ax_option_eq(call):
                 pa, pb = call.deref(payload(ta, "Some"), st2), call.deref(payload(tb, "Some"), st2)
                 l = generic_eq(call, st2, pa, pb)
                 if l == TOP:
-                    # uninterpreted but stable atom
-                    ka, kb = sorted([repr(tree_leaf(pa)), repr(tree_leaf(pb))])
-                    l = ("term", ("app", "eq?", ka, kb, call.fr.body.id, call.fr.bb))
+                    # uninterpreted but stable atom, symmetric in its operands
+                    ka, kb = sorted([tree_leaf(pa), tree_leaf(pb)], key=repr)
+                    l = ("term", ("app", "eq?", ka, kb))
                 if l[0] == "term" and l[1][0] == "is":
                     l = decide_is(call.interp, st2, l)
                 out.append((st2, leaf_tree(l)))
+    if negate:
+        out = [(s_, leaf_tree(_neg(tree_leaf(t_)))) for s_, t_ in out]
     return call.ret_many(out)
 
 
@@ -608,7 +620,7 @@ def _field_accessor(field, by_ref=True):
         if addr is None:
             l = call.leaf(0)
             if l[0] == "term":
-                return call.ret_leaf(("term", ("proj", l[1], (("f", "@" + field),))))
+                return call.ret_leaf(("term", mkproj(l[1], (("f", "@" + field),))))
             return call.ret_app(field)
         p = addr[1] + (("f", "@" + field),)
         if by_ref:
